@@ -76,7 +76,7 @@ class Repo:
     def apply(self, rng, op=None):
         r = self.repo
         existing = [n for n in NAMES if os.path.isfile(os.path.join(r, n))]
-        op = op or rng.choice(["write", "write", "write", "modify", "delete", "mv", "gitmv", "add", "addall", "rmcached", "commit", "commit"])
+        op = op or rng.choice(["write", "write", "write", "modify", "delete", "mv", "gitmv", "add", "addall", "rmcached", "commit", "commit", "empty"])
         if op == "bulk":
             # many new files at once: more than two analysis batches (50), an odd number of them
             k = rng.choice([101, 113, 150, 127])
@@ -86,6 +86,10 @@ class Repo:
                 open(os.path.join(r, d, "%s %03d.txt" % (rng.choice(["f", "é", "z z"]), i)), "wb").write(b"bulk %d %d\n" % (self.serial, i))
             self.serial += 1
             return ("bulk", d, k)
+        if op == "empty":
+            # a zero-length file: its checksum must still differ from the empty checksum that stands for "no such file"
+            n = rng.choice(NAMES); os.makedirs(os.path.dirname(os.path.join(r, n)) or r, exist_ok=True)
+            open(os.path.join(r, n), "wb").close(); return ("empty", n)
         if op == "write":
             n = rng.choice(NAMES); os.makedirs(os.path.dirname(os.path.join(r, n)) or r, exist_ok=True)
             open(os.path.join(r, n), "wb").write(self.fresh_content(rng)); return ("write", n)
@@ -247,7 +251,7 @@ def c07_round(ctx, repo, rng, trail):
     edited = set()
     r = repo.repo
     for _ in range(rng.randint(1, 4)):
-        kind = rng.choice(["create", "modify", "delete"])
+        kind = rng.choice(["create", "modify", "delete", "create_empty", "truncate"])
         existing = [n for n in NAMES if os.path.isfile(os.path.join(r, n)) and not n.startswith("ign/")]
         committed = set(p.decode("utf-8", "replace") for p, _ in repo.tree_of(new["id"]))
         if kind == "create":
@@ -255,6 +259,19 @@ def c07_round(ctx, repo, rng, trail):
             if not cand: continue
             n = rng.choice(cand); os.makedirs(os.path.dirname(os.path.join(r, n)) or r, exist_ok=True)
             open(os.path.join(r, n), "wb").write(repo.fresh_content(rng))
+        elif kind == "create_empty":
+            # never existed at update time -> now exists with zero length (a state it never had)
+            cand = [n for n in NAMES if not os.path.exists(os.path.join(r, n)) and not n.startswith("ign/") and n not in edited and n not in committed]
+            if not cand: continue
+            n = rng.choice(cand); os.makedirs(os.path.dirname(os.path.join(r, n)) or r, exist_ok=True)
+            open(os.path.join(r, n), "wb").close()
+        elif kind == "truncate":
+            # novel only if the checkpoint commit does not already hold this path as an empty file
+            empty_id = repo.cid_of_bytes(b"")
+            empty_in_commit = set(p.decode("utf-8", "replace") for p, c in repo.tree_of(new["id"]) if c == empty_id)
+            cand = [n for n in existing if os.path.getsize(os.path.join(r, n)) > 0 and n not in edited and n not in empty_in_commit]
+            if not cand: continue
+            n = rng.choice(cand); open(os.path.join(r, n), "wb").close()
         elif kind == "modify" and existing:
             n = rng.choice(existing); open(os.path.join(r, n), "wb").write(repo.fresh_content(rng))
         elif kind == "delete":
